@@ -17,7 +17,9 @@ LINE_BUDGET = 400000
 
 
 def gen(rng, tier):
-    c = G.gen_fa(rng, adversarial=rng.chance(0.05), max_states=rng.pick([4, 5, 6]), max_trans=rng.pick([6, 9, 11]))
+    big = tier == "thorough" and rng.chance(0.25)
+    c = G.gen_fa(rng, adversarial=rng.chance(0.05), max_states=8 if big else rng.pick([4, 5, 6]),
+                 max_trans=15 if big else rng.pick([6, 9, 11]))
     c["bounds"] = sorted(rng.sample(range(0, 6), 2))
     c["step_k"] = rng.randint(0, 4)
     return c
